@@ -4,6 +4,7 @@ import Ecal.Lemmas.PriorityHeapPush
 import Ecal.Lemmas.PriorityCascade
 import Ecal.Lemmas.PriorityValid
 import Ecal.Gen.C10
+import Ecal.Model.PriorityConc
 /-!
 # C10 — priorities order execution; the first failing rule ends a trigger sequence
 
@@ -906,6 +907,135 @@ theorem highestPriority_int (ops : List Op) (s : RM) (hr : run current {} ops = 
         rw [hall m hm] at ha; cases ha
     · intro _
       exact ⟨⟨m, hm, ha, hp⟩, hle⟩
+
+/-! ### several workers: every interleaving of atomic bookkeeping steps -/
+
+section concurrent
+open Conc
+
+theorem run_snoc (cfg : Cfg) : ∀ (ops : List Op) (s : RM) (op : Op),
+    run cfg s (ops ++ [op]) = (run cfg s ops).bind (fun s' => step cfg s' op)
+  | [], s, op => by
+    simp only [List.nil_append, run, Option.bind_some]
+    cases step cfg s op <;> rfl
+  | o :: ops, s, op => by
+    simp only [List.cons_append, run]
+    cases step cfg s o with
+    | none => rfl
+    | some s1 => exact run_snoc cfg ops s1 op
+
+/-- **Linearisation.** Whatever the schedule, the shared root-monitor state is the state after a
+    *sequential* call sequence: the calls performed so far, in the order in which they took the
+    lock (the ghost log `hist`). -/
+theorem interleaving_is_a_sequence {P : List (List Act)} {c : Sys} (h : Reach P c) :
+    run current {} (c.hist.reverse.map (·.2)) = some c.shared := by
+  induction h with
+  | init => rfl
+  | step _ hs ih =>
+    cases hs with
+    | call hp hstep =>
+      simp only [List.reverse_cons, List.map_append, List.map_cons, List.map_nil]
+      rw [run_snoc, ih]
+      exact hstep
+    | read hp => exact ih
+
+/-- … and that sequence respects every worker's program order: what worker `w` has performed,
+    followed by the calls it still has to make, is the call sequence of its program; no worker
+    appears or disappears. -/
+theorem program_order_kept {P : List (List Act)} {c : Sys} (h : Reach P c) :
+    c.progs.length = P.length ∧
+    ∀ w, doneBy c w ++ callsOf (c.progs[w]?.getD []) = callsOf (P[w]?.getD []) := by
+  induction h with
+  | init => exact ⟨rfl, fun w => by simp [doneBy]⟩
+  | @step c c' _ hs ih =>
+    obtain ⟨hlen, hw⟩ := ih
+    cases hs with
+    | @call w0 op rest s' hp hstep =>
+      refine ⟨by simp [hlen], ?_⟩
+      intro w
+      have hw0 : w0 < c.progs.length := (List.getElem?_eq_some_iff.mp hp).1
+      by_cases hww : w = w0
+      · subst hww
+        have hold := hw w
+        rw [hp] at hold
+        simp only [Option.getD_some, callsOf] at hold
+        simp only [doneBy, List.reverse_cons, List.filter_append, List.map_append] at hold ⊢
+        simp only [List.getElem?_set_self hw0, Option.getD_some]
+        rw [← hold]
+        simp
+      · have hold := hw w
+        have hne : (w0 == w) = false := by simpa using fun e => hww e.symm
+        simp only [doneBy, List.reverse_cons, List.filter_append, List.map_append] at hold ⊢
+        rw [List.getElem?_set_ne (fun e => hww e.symm)]
+        rw [← hold]
+        simp [hne]
+    | @read w0 rest hp =>
+      refine ⟨by simp [hlen], ?_⟩
+      intro w
+      have hw0 : w0 < c.progs.length := (List.getElem?_eq_some_iff.mp hp).1
+      by_cases hww : w = w0
+      · subst hww
+        have hold := hw w
+        rw [hp] at hold
+        simp only [Option.getD_some, callsOf] at hold
+        simp only [doneBy] at hold ⊢
+        simp only [List.getElem?_set_self hw0, Option.getD_some]
+        exact hold
+      · have hold := hw w
+        simp only [doneBy] at hold ⊢
+        rw [List.getElem?_set_ne (fun e => hww e.symm)]
+        exact hold
+
+/-- **`HighestPriority` is exact under every interleaving** of any number of workers, each running
+    any program of `NewChildMonitor` / `Activate` / `Skip` / `Finish` calls and reads, each action
+    one atomic step (the lock sections of monitor.go): in every reachable state the heap root is
+    the least priority of the monitors activated by a triggering event and not finished, and the
+    heap is empty iff there is none. (The sequential theorem `highest_priority_exact` lifted over
+    the linearisation `interleaving_is_a_sequence`.) -/
+theorem highest_priority_exact_concurrent {P : List (List Act)} {c : Sys} (h : Reach P c) :
+    (highest? c.shared = none ↔ ∀ m ∈ c.shared.mons, m.active = false) ∧
+    (∀ p, highest? c.shared = some p →
+      (∃ m ∈ c.shared.mons, m.active = true ∧ m.prio = p) ∧
+      ∀ m ∈ c.shared.mons, m.active = true → p ≤ m.prio) :=
+  highest_priority_exact _ _ (interleaving_is_a_sequence h)
+
+/-- **Every value any worker ever reads is exact at the moment of the read**: each entry `(w, v)` of
+    the read log is `HighestPriority()` of a reachable system state `c₀` (the state in which worker
+    `w` held the lock), for which `highest_priority_exact_concurrent` holds; for priorities ≥ 0
+    this is the integer statement: `v = -1` iff no monitor was active then, otherwise `v` is the
+    least active priority. -/
+theorem every_read_is_exact {P : List (List Act)} {c : Sys} (h : Reach P c) :
+    ∀ w v, (w, v) ∈ c.reads → ∃ c₀, Reach P c₀ ∧ v = highestPriority c₀.shared ∧
+      ((∀ m ∈ c₀.shared.mons, 0 ≤ m.prio) →
+        (v = -1 ↔ ∀ m ∈ c₀.shared.mons, m.active = false) ∧
+        ((∃ m ∈ c₀.shared.mons, m.active = true) →
+          (∃ m ∈ c₀.shared.mons, m.active = true ∧ m.prio = v) ∧
+          ∀ m ∈ c₀.shared.mons, m.active = true → v ≤ m.prio)) := by
+  induction h with
+  | init => intro w v hm; simp at hm
+  | @step c c' hc hs ih =>
+    cases hs with
+    | call hp hstep => exact ih
+    | @read w0 rest hp =>
+      intro w v hm
+      simp only [List.mem_cons, Prod.mk.injEq] at hm
+      rcases hm with ⟨rfl, rfl⟩ | hm
+      · refine ⟨c, hc, rfl, ?_⟩
+        intro hnn
+        exact highestPriority_int _ _ (interleaving_is_a_sequence hc) hnn
+      · exact ih w v hm
+
+/-- non-vacuity: two workers — one activates a monitor of priority 3 and finishes it, the other
+    activates one of priority 1 and reads; in the schedule below the reader sees 1 while both are
+    active (another schedule lets it see 1 after the first has finished: also exact) -/
+example : ∃ c, Reach [[.call (.newChild 3), .call (.activate 1), .call (.finish 1)],
+                      [.call (.newChild 1), .call (.activate 2), .read]] c ∧ c.reads = [(1, 1)] := by
+  refine ⟨_, .step (.step (.step (.step (.step .init
+    (.call (w := 0) rfl rfl)) (.call (w := 0) rfl rfl)) (.call (w := 1) rfl rfl))
+    (.call (w := 1) rfl rfl)) (.read (w := 1) rfl), ?_⟩
+  decide
+
+end concurrent
 
 /-- `NewChildMonitor(p)` followed by `Activate` for consecutive monitors `start, start+1, …` -/
 def activateAll (ps : List Int) (start : Nat) : List Op :=
